@@ -225,6 +225,13 @@ def sx_call(f, *a, **kw):
         raise Unsupported("CondTag passed to %r" % (f,))
     if a and isinstance(a[0], SymTagSet) and f in (set, frozenset, list, tuple, sorted):
         return a[0].copy()
+    if a and isinstance(a[0], SymInt) and getattr(f, "__name__", "") == "get" and isinstance(getattr(f, "__self__", None), dict):
+        # dict.get(symbolic int key): case split over the (concrete) keys
+        d = f.__self__
+        for k in list(d.keys()):
+            if isinstance(k, int) and not isinstance(k, bool) and a[0] == k:
+                return d[k]
+        return a[1] if len(a) > 1 else kw.get("default")
     if not _anysym(a, kw):
         if isinstance(f, types.BuiltinMethodType) and isinstance(getattr(f, "__self__", None), SymChoice):
             return f(*a, **kw)
